@@ -4,39 +4,387 @@ Import ListNotations.
 Require Import OPC.gen.GenTables OPC.Uni OPC.Names OPC.NamesThm OPC.Fs.
 Open Scope N_scope.
 
-(* STATEMENTS TO PROVE (keep the statements exactly as written):
+(* ---------- basic equality / membership lemmas ---------- *)
+
+Lemma str_eqb_refl a : str_eqb a a = true.
+Proof. apply str_eqb_eq. reflexivity. Qed.
+
+Lemma path_eqb_eq a : forall b, path_eqb a b = true <-> a = b.
+Proof.
+  induction a as [|x a IH]; intros [|y b]; cbn [path_eqb]; split; intro H;
+    try reflexivity; try discriminate.
+  - apply andb_true_iff in H. destruct H as [H1 H2].
+    apply str_eqb_eq in H1. apply IH in H2. subst. reflexivity.
+  - injection H as Hx Ha. subst. apply andb_true_iff. split.
+    + apply str_eqb_refl.
+    + apply IH. reflexivity.
+Qed.
+
+Lemma path_eqb_refl a : path_eqb a a = true.
+Proof. apply path_eqb_eq. reflexivity. Qed.
+
+Lemma path_eqb_sym a b : path_eqb a b = path_eqb b a.
+Proof.
+  destruct (path_eqb a b) eqn:E1; destruct (path_eqb b a) eqn:E2; try reflexivity.
+  - apply path_eqb_eq in E1. subst. rewrite path_eqb_refl in E2. discriminate.
+  - apply path_eqb_eq in E2. subst. rewrite path_eqb_refl in E1. discriminate.
+Qed.
+
+Lemma mem_path_In p l : mem_path p l = true <-> In p l.
+Proof.
+  unfold mem_path. rewrite existsb_exists. split.
+  - intros [x [Hin Hx]]. apply path_eqb_eq in Hx. subst. exact Hin.
+  - intro Hin. exists p. split; [exact Hin | apply path_eqb_refl].
+Qed.
+
+Lemma mem_path_app p a b : mem_path p (a ++ b) = mem_path p a || mem_path p b.
+Proof. unfold mem_path. apply existsb_app. Qed.
+
+(* ---------- lookup over the operations ---------- *)
+
+Lemma lookup_write t q c p :
+  lookup_path (write t q c) p = if path_eqb q p then Some c else lookup_path t p.
+Proof. reflexivity. Qed.
+
+Lemma lookup_write_all id ps : forall t p,
+  lookup_path (write_all id t ps) p = if mem_path p ps then Some (Gen id) else lookup_path t p.
+Proof.
+  induction ps as [|q ps IH]; intros t p.
+  - reflexivity.
+  - unfold write_all in *. cbn [fold_left]. rewrite IH. rewrite lookup_write.
+    unfold mem_path. cbn [existsb]. fold (mem_path p ps).
+    rewrite (path_eqb_sym p q).
+    destruct (mem_path p ps); destruct (path_eqb q p); reflexivity.
+Qed.
+
+Lemma prefix_eq_true pre k p : path_eqb k p = true -> is_prefix_path pre k = is_prefix_path pre p.
+Proof. intro H. apply path_eqb_eq in H. subst. reflexivity. Qed.
+
+Lemma lookup_rmtree pre p : forall t,
+  lookup_path (rmtree t pre) p = if is_prefix_path pre p then None else lookup_path t p.
+Proof.
+  induction t as [|[k c] t IH].
+  - cbn. destruct (is_prefix_path pre p); reflexivity.
+  - unfold rmtree in *. cbn [filter fst].
+    destruct (is_prefix_path pre k) eqn:Ek; cbn [negb].
+    + rewrite IH. cbn [lookup_path].
+      destruct (path_eqb k p) eqn:Ekp.
+      * rewrite <- (prefix_eq_true pre k p Ekp). rewrite Ek. reflexivity.
+      * reflexivity.
+    + cbn [lookup_path]. rewrite IH.
+      destruct (path_eqb k p) eqn:Ekp.
+      * rewrite <- (prefix_eq_true pre k p Ekp). rewrite Ek. reflexivity.
+      * reflexivity.
+Qed.
+
+(* ---------- prefixes ---------- *)
+
+Lemma prefix_app_cons pp a b rest :
+  is_prefix_path (pp ++ [a]) (pp ++ b :: rest) = str_eqb a b.
+Proof.
+  induction pp as [|x pp IH].
+  - cbn [app is_prefix_path]. apply andb_true_r.
+  - cbn [app is_prefix_path]. rewrite str_eqb_refl, IH. reflexivity.
+Qed.
+
+Lemma mem_noprefix pre l p :
+  (forall q, In q l -> is_prefix_path pre q = false) ->
+  mem_path p l = true -> is_prefix_path pre p = false.
+Proof. intros H Hm. apply H. apply mem_path_In. exact Hm. Qed.
+
+Lemma package_noprefix fl pkg a q :
+  str_eqb a f_init = false -> str_eqb a f_pytyped = false -> str_eqb a f_types = false ->
+  In q (package_files fl pkg) -> is_prefix_path (pkg_prefix fl pkg ++ [a]) q = false.
+Proof.
+  intros H1 H2 H3 Hin. unfold package_files in Hin.
+  apply in_app_or in Hin. destruct Hin as [Hin | Hin].
+  - destruct Hin as [<- | []]. rewrite prefix_app_cons. exact H1.
+  - apply in_app_or in Hin. destruct Hin as [Hin | Hin].
+    + destruct fl; [destruct Hin | ..];
+        (destruct Hin as [Hin | []]; subst q; rewrite prefix_app_cons; exact H2).
+    + destruct Hin as [<- | []]. rewrite prefix_app_cons. exact H3.
+Qed.
+
+Lemma meta_single fl q : In q (metadata_files fl) -> exists f,
+  q = [f] /\ (f = f_pyproject \/ f = f_setup \/ f = f_readme \/ f = f_gitignore).
+Proof.
+  intro Hin. destruct fl; cbn [metadata_files In] in Hin;
+    repeat (destruct Hin as [Hin | Hin]; [subst q; eexists; split; [reflexivity | tauto] | ]);
+    destruct Hin.
+Qed.
+
+Lemma meta_noprefix fl pkg a q :
+  str_eqb a f_pyproject = false -> str_eqb a f_setup = false ->
+  str_eqb a f_readme = false -> str_eqb a f_gitignore = false ->
+  In q (metadata_files fl) -> is_prefix_path (pkg_prefix fl pkg ++ [a]) q = false.
+Proof.
+  intros H1 H2 H3 H4 Hin.
+  destruct (meta_single fl q Hin) as [f [-> Hf]].
+  destruct fl; cbn [pkg_prefix app is_prefix_path];
+    try (destruct Hin; fail);
+    try (apply andb_false_r).
+Qed.
+
+Lemma model_prefix fl pkg d a q :
+  In q (model_files fl pkg d) -> is_prefix_path (pkg_prefix fl pkg ++ [a]) q = str_eqb a d_models_dir.
+Proof.
+  intro Hin. unfold model_files in Hin. apply in_app_or in Hin. destruct Hin as [Hin | Hin].
+  - apply in_map_iff in Hin. destruct Hin as [m [<- _]]. apply prefix_app_cons.
+  - destruct Hin as [<- | []]. apply prefix_app_cons.
+Qed.
+
+Lemma client_noprefix fl pkg a q :
+  str_eqb a f_client = false -> str_eqb a f_errors = false ->
+  In q (client_files fl pkg) -> is_prefix_path (pkg_prefix fl pkg ++ [a]) q = false.
+Proof.
+  intros H1 H2 Hin. unfold client_files in Hin.
+  destruct Hin as [<- | [<- | []]]; rewrite prefix_app_cons; assumption.
+Qed.
+
+Lemma api_prefix fl pkg d a q :
+  In q (api_files fl pkg d) -> is_prefix_path (pkg_prefix fl pkg ++ [a]) q = str_eqb a d_api_dir.
+Proof.
+  intro Hin. unfold api_files in Hin. destruct Hin as [<- | Hin].
+  - apply prefix_app_cons.
+  - apply in_flat_map in Hin. destruct Hin as [te [_ Hin]].
+    destruct Hin as [<- | Hin].
+    + apply prefix_app_cons.
+    + apply in_map_iff in Hin. destruct Hin as [e [<- _]]. apply prefix_app_cons.
+Qed.
+
+(* ---------- theorems ---------- *)
 
 Theorem no_overwrite_untouched : forall fl pkg d id t,
   build fl pkg false true d id t = (t, true).
+Proof. intros. reflexivity. Qed.
 
 Theorem build_postcondition : forall fl pkg d id t p,
   lookup_path (build_steps fl pkg d id t) p =
     if mem_path p (gen_files fl pkg d) then Some (Gen id)
     else if managed fl pkg p then None else lookup_path t p.
+Proof.
+  intros fl pkg d id t p.
+  unfold build_steps, gen_files, managed. cbv zeta.
+  repeat (rewrite lookup_write_all || rewrite lookup_rmtree).
+  rewrite !mem_path_app.
+  assert (Hpk : mem_path p (package_files fl pkg) = true ->
+                is_prefix_path (pkg_prefix fl pkg ++ [d_models_dir]) p = false /\
+                is_prefix_path (pkg_prefix fl pkg ++ [d_api_dir]) p = false).
+  { intro Hm. split; (eapply mem_noprefix; [| exact Hm]); intros q Hq;
+      apply package_noprefix; try exact Hq; vm_compute; reflexivity. }
+  assert (Hme : mem_path p (metadata_files fl) = true ->
+                is_prefix_path (pkg_prefix fl pkg ++ [d_models_dir]) p = false /\
+                is_prefix_path (pkg_prefix fl pkg ++ [d_api_dir]) p = false).
+  { intro Hm. split; (eapply mem_noprefix; [| exact Hm]); intros q Hq;
+      apply meta_noprefix; try exact Hq; vm_compute; reflexivity. }
+  assert (Hmo : mem_path p (model_files fl pkg d) = true ->
+                is_prefix_path (pkg_prefix fl pkg ++ [d_api_dir]) p = false).
+  { intro Hm. eapply mem_noprefix; [| exact Hm]. intros q Hq.
+    rewrite (model_prefix fl pkg d _ q Hq). vm_compute. reflexivity. }
+  assert (Hcl : mem_path p (client_files fl pkg) = true ->
+                is_prefix_path (pkg_prefix fl pkg ++ [d_api_dir]) p = false).
+  { intro Hm. eapply mem_noprefix; [| exact Hm]. intros q Hq.
+    apply client_noprefix; try exact Hq; vm_compute; reflexivity. }
+  destruct (mem_path p (package_files fl pkg));
+  destruct (mem_path p (metadata_files fl));
+  destruct (mem_path p (model_files fl pkg d));
+  destruct (mem_path p (client_files fl pkg));
+  destruct (mem_path p (api_files fl pkg d));
+  destruct (is_prefix_path (pkg_prefix fl pkg ++ [d_models_dir]) p);
+  destruct (is_prefix_path (pkg_prefix fl pkg ++ [d_api_dir]) p);
+  cbn [orb]; try reflexivity;
+  try (destruct (Hpk eq_refl); discriminate);
+  try (destruct (Hme eq_refl); discriminate);
+  try (specialize (Hmo eq_refl); discriminate);
+  try (specialize (Hcl eq_refl); discriminate).
+Qed.
+
+Lemma run_app fl pkg h1 h2 t : run fl pkg (h1 ++ h2) t = run fl pkg h2 (run fl pkg h1 t).
+Proof. unfold run. apply fold_left_app. Qed.
 
 Theorem overwrite_converges : forall fl pkg h t id d p,
   managed fl pkg p = true ->
   lookup_path (run fl pkg (h ++ [Build id d]) t) p =
     if mem_path p (gen_files fl pkg d) then Some (Gen id) else None.
+Proof.
+  intros fl pkg h t id d p Hm.
+  rewrite run_app. unfold run at 1. cbn [fold_left run_step].
+  unfold build. cbn [andb negb fst].
+  rewrite build_postcondition. rewrite Hm. reflexivity.
+Qed.
 
 Definition is_user (s : step) : bool := match s with UserWrite _ _ => true | Build _ _ => false end.
+
+Lemma run_congr fl pkg p :
+  managed fl pkg p = false ->
+  forall h t t',
+  (forall id d, In (Build id d) h -> mem_path p (gen_files fl pkg d) = false) ->
+  lookup_path t p = lookup_path t' p ->
+  lookup_path (run fl pkg h t) p = lookup_path (run fl pkg (filter is_user h) t') p.
+Proof.
+  intros Hm. induction h as [|s h IH]; intros t t' Hh Ht.
+  - exact Ht.
+  - destruct s as [id d | q u].
+    + cbn [filter is_user]. unfold run. cbn [fold_left]. fold (run fl pkg h).
+      apply IH.
+      * intros id' d' Hin. apply (Hh id' d'). right. exact Hin.
+      * cbn [run_step]. unfold build. cbn [andb negb fst].
+        rewrite build_postcondition. rewrite Hm.
+        rewrite (Hh id d (or_introl eq_refl)). exact Ht.
+    + cbn [filter is_user]. unfold run. cbn [fold_left].
+      fold (run fl pkg h). fold (run fl pkg (filter is_user h)).
+      apply IH.
+      * intros id' d' Hin. apply (Hh id' d'). right. exact Hin.
+      * cbn [run_step]. rewrite !lookup_write. rewrite Ht. reflexivity.
+Qed.
 
 Theorem user_files_untouched : forall fl pkg h t p,
   managed fl pkg p = false ->
   (forall id d, In (Build id d) h -> mem_path p (gen_files fl pkg d) = false) ->
   lookup_path (run fl pkg h t) p = lookup_path (run fl pkg (filter is_user h) t) p.
+Proof.
+  intros fl pkg h t p Hm Hh. apply run_congr; auto.
+Qed.
 
 Definition safe_chars (c : str) : bool := forallb (fun x => negb ((x =? 47) || (x =? 92) || (x =? 0))) c.
+
+Lemma str_eqb_len a b : str_eqb a b = true -> length a = length b.
+Proof. intro H. apply str_eqb_eq in H. subst. reflexivity. Qed.
+
+Lemma safe_ext m : safe_chars m = true -> safe_component (m ++ ext_py) = true.
+Proof.
+  intro Hm. unfold safe_component.
+  assert (Hlen : (length (m ++ ext_py) >= 3)%nat).
+  { rewrite app_length. cbn [ext_py length]. lia. }
+  destruct (str_eqb (m ++ ext_py) []) eqn:E1.
+  { apply str_eqb_len in E1. cbn [length] in E1. lia. }
+  destruct (str_eqb (m ++ ext_py) [46]) eqn:E2.
+  { apply str_eqb_len in E2. cbn [length] in E2. lia. }
+  destruct (str_eqb (m ++ ext_py) [46;46]) eqn:E3.
+  { apply str_eqb_len in E3. cbn [length] in E3. lia. }
+  cbn [negb andb].
+  rewrite forallb_app. unfold safe_chars in Hm. rewrite Hm.
+  vm_compute. reflexivity.
+Qed.
 
 Theorem writes_confined : forall fl pkg d p,
   safe_component pkg = true ->
   forallb safe_chars (d_models d) = true ->
   forallb (fun te => safe_component (fst te) && forallb safe_chars (snd te)) (d_tags d) = true ->
   In p (gen_files fl pkg d) -> forallb safe_component p = true.
+Proof.
+  intros fl pkg d p Hpkg Hmod Htag Hin.
+  assert (Hpp : forallb safe_component (pkg_prefix fl pkg) = true).
+  { destruct fl; cbn [pkg_prefix forallb]; rewrite ?Hpkg; reflexivity. }
+  assert (Hc : forall f, safe_component f = true ->
+               forallb safe_component (pkg_prefix fl pkg ++ [f]) = true).
+  { intros f Hf. rewrite forallb_app, Hpp. cbn [forallb]. rewrite Hf. reflexivity. }
+  assert (Hc2 : forall f g, safe_component f = true -> safe_component g = true ->
+               forallb safe_component (pkg_prefix fl pkg ++ [f; g]) = true).
+  { intros f g Hf Hg. rewrite forallb_app, Hpp. cbn [forallb]. rewrite Hf, Hg. reflexivity. }
+  assert (Hc3 : forall f g k, safe_component f = true -> safe_component g = true ->
+               safe_component k = true ->
+               forallb safe_component (pkg_prefix fl pkg ++ [f; g; k]) = true).
+  { intros f g k Hf Hg Hk. rewrite forallb_app, Hpp. cbn [forallb].
+    rewrite Hf, Hg, Hk. reflexivity. }
+  unfold gen_files in Hin. rewrite !in_app_iff in Hin.
+  destruct Hin as [Hin | [Hin | [Hin | [Hin | Hin]]]].
+  - (* package files *)
+    unfold package_files in Hin. rewrite !in_app_iff in Hin.
+    destruct Hin as [Hin | [Hin | Hin]].
+    + destruct Hin as [<- | []]. apply Hc. vm_compute. reflexivity.
+    + destruct fl; [destruct Hin | ..];
+        (destruct Hin as [Hin | []]; subst p; apply Hc; vm_compute; reflexivity).
+    + destruct Hin as [<- | []]. apply Hc. vm_compute. reflexivity.
+  - (* metadata files *)
+    destruct (meta_single fl p Hin) as [f [-> Hf]].
+    cbn [forallb]. rewrite andb_true_r.
+    destruct Hf as [-> | [-> | [-> | ->]]]; vm_compute; reflexivity.
+  - (* model files *)
+    unfold model_files in Hin. apply in_app_or in Hin. destruct Hin as [Hin | Hin].
+    + apply in_map_iff in Hin. destruct Hin as [m [<- Hm]].
+      apply Hc2.
+      * vm_compute. reflexivity.
+      * apply safe_ext. rewrite forallb_forall in Hmod. apply Hmod. exact Hm.
+    + destruct Hin as [<- | []]. apply Hc2; vm_compute; reflexivity.
+  - (* client files *)
+    unfold client_files in Hin.
+    destruct Hin as [<- | [<- | []]]; apply Hc; vm_compute; reflexivity.
+  - (* api files *)
+    unfold api_files in Hin. destruct Hin as [<- | Hin].
+    + apply Hc2; vm_compute; reflexivity.
+    + apply in_flat_map in Hin. destruct Hin as [te [Hte Hin]].
+      rewrite forallb_forall in Htag. specialize (Htag te Hte).
+      apply andb_true_iff in Htag. destruct Htag as [Ht1 Ht2].
+      destruct Hin as [<- | Hin].
+      * apply Hc3; try exact Ht1; vm_compute; reflexivity.
+      * apply in_map_iff in Hin. destruct Hin as [e [<- He]].
+        apply Hc3; try exact Ht1.
+        -- vm_compute. reflexivity.
+        -- apply safe_ext. rewrite forallb_forall in Ht2. apply Ht2. exact He.
+Qed.
 
 Example history_nonvacuous : exists h p,
   forallb (user_step_ok FPoetry [112]) h = true /\ managed FPoetry [112] p = true /\
   lookup_path (run FPoetry [112] h []) p = None /\ length h = 4%nat.
-  (* suggested witness: generate doc 1 with model "a", user writes a file outside, generate doc 2 without model "a",
-     p = the stale module path p/models/a.py *)
-*)
+Proof.
+  exists [ UserWrite [[112]; [120]] 7;
+           Build 1 {| d_models := [[97]]; d_tags := [] |};
+           UserWrite [[121]] 8;
+           Build 2 {| d_models := []; d_tags := [] |} ].
+  exists [[112]; d_models_dir; [97] ++ ext_py].
+  repeat split; vm_compute; reflexivity.
+Qed.
+
+(* sanity: in the witness history the stale module really existed after the first generation *)
+Example history_stale_existed :
+  lookup_path (run FPoetry [112]
+     [ UserWrite [[112]; [120]] 7; Build 1 {| d_models := [[97]]; d_tags := [] |} ] [])
+     [[112]; d_models_dir; [97] ++ ext_py] = Some (Gen 1).
+Proof. vm_compute. reflexivity. Qed.
+
+Print Assumptions no_overwrite_untouched.
+Print Assumptions build_postcondition.
+Print Assumptions overwrite_converges.
+Print Assumptions user_files_untouched.
+Print Assumptions writes_confined.
+Print Assumptions history_nonvacuous.
+
+(* ---------- link to Names: path components derived from document text are safe (C19 writes_confined) ---------- *)
+Lemma path_char_facts x : path_char x = true -> x <> 0 /\ x <> 46 /\ x <> 47 /\ x <> 92.
+Proof.
+  unfold path_char. intro H. apply negb_true_iff in H.
+  repeat split; intro E; subst x; vm_compute in H; discriminate.
+Qed.
+
+Lemma path_chars_safe s : forallb path_char s = true -> safe_chars s = true.
+Proof.
+  unfold safe_chars. intro H. apply forallb_forall. intros x Hx.
+  rewrite forallb_forall in H. destruct (path_char_facts x (H _ Hx)) as (H0 & _ & H47 & H92).
+  apply negb_true_iff. apply orb_false_iff. split; [apply orb_false_iff; split|]; now apply N.eqb_neq.
+Qed.
+
+Theorem derived_component_safe value prefix :
+  good_prefix prefix = true -> forallb path_char prefix = true ->
+  safe_component (python_identifier value prefix false) = true.
+Proof.
+  intros Hg Hp.
+  pose proof (python_identifier_path_chars value prefix Hp) as Hc.
+  pose proof (python_identifier_nonempty value prefix Hg) as Hne.
+  set (r := python_identifier value prefix false) in *.
+  unfold safe_component.
+  assert (H1: str_eqb r [] = false).
+  { destruct (str_eqb r []) eqn:E; [|reflexivity]. apply str_eqb_eq in E. contradiction. }
+  assert (Hno46: forall x, In x r -> x <> 46).
+  { intros x Hx. rewrite forallb_forall in Hc. now destruct (path_char_facts x (Hc _ Hx)) as (_ & H & _). }
+  assert (H2: str_eqb r [46] = false).
+  { destruct (str_eqb r [46]) eqn:E; [|reflexivity]. apply str_eqb_eq in E. exfalso. apply (Hno46 46); [rewrite E; now left | reflexivity]. }
+  assert (H3: str_eqb r [46;46] = false).
+  { destruct (str_eqb r [46;46]) eqn:E; [|reflexivity]. apply str_eqb_eq in E. exfalso. apply (Hno46 46); [rewrite E; now left | reflexivity]. }
+  rewrite H1, H2, H3. cbn [negb andb].
+  pose proof (path_chars_safe r Hc) as Hs. unfold safe_chars in Hs. exact Hs.
+Qed.
+
+Theorem derived_module_safe value prefix :
+  forallb path_char prefix = true -> safe_chars (python_identifier value prefix false) = true.
+Proof. intro Hp. apply path_chars_safe, python_identifier_path_chars, Hp. Qed.
